@@ -162,9 +162,9 @@ def sink_tasks(tier):
     ts.append(Task('folding.visit_BinOp', 'contracts.folding:task_visit_binop'))
     ts.append(Task('folding.literal_tokens', 'contracts.folding:task_literal_tokens'))
     ts.append(generic_standin('sink canary len 2', 'sink_canary.py', ['--len', '2'],
-                              'all sequences of up to 2 of 32 adversarial pieces through MiniString, f_string.Str/Bytes, minify and unparse with eval wrapped'))
+                              'all sequences of up to 2 of 40 adversarial pieces through MiniString, f_string.Str/Bytes, minify and unparse with eval wrapped'))
     if tier == 'thorough':
-        ts.append(generic_standin('sink canary len 3', 'sink_canary.py', ['--len', '3'], 'all sequences of up to 3 of 32 adversarial pieces'))
+        ts.append(generic_standin('sink canary len 3', 'sink_canary.py', ['--len', '3'], 'all sequences of up to 3 of 40 adversarial pieces'))
     return ts
 
 
